@@ -306,3 +306,50 @@ func constInt(info *types.Info, e ast.Expr) (int64, bool) {
 	}
 	return constToInt(tv)
 }
+
+// loadExtra loads a standalone module (the checker's own positive examples).
+func loadExtra(dir string) *Prog {
+	cfg := &packages.Config{Mode: packages.LoadAllSyntax, Dir: dir, Env: goEnv("")}
+	pkgs, err := packages.Load(cfg, "./...")
+	if err != nil || len(pkgs) == 0 {
+		fatalf("loading %s: %v", dir, err)
+	}
+	if packages.PrintErrors(pkgs) > 0 {
+		fatalf("positive examples in %s do not type-check", dir)
+	}
+	p := &Prog{Pkgs: map[string]*packages.Package{}, fileOf: map[*ast.File]*packages.Package{}}
+	for _, pk := range pkgs {
+		p.Pkgs[pk.PkgPath] = pk
+		p.Fset = pk.Fset
+		for _, f := range pk.Syntax {
+			p.fileOf[f] = pk
+		}
+	}
+	p.SSA, _ = ssautil.AllPackages(pkgs, ssa.InstantiateGenerics)
+	p.SSA.Build()
+	p.AllFns = ssautil.AllFunctions(p.SSA)
+	for _, sp := range p.SSA.AllPackages() {
+		if p.Pkgs[sp.Pkg.Path()] == nil {
+			continue
+		}
+		for _, m := range sp.Members {
+			if t, ok := m.(*ssa.Type); ok {
+				for _, ty := range []types.Type{t.Type(), types.NewPointer(t.Type())} {
+					ms := p.SSA.MethodSets.MethodSet(ty)
+					for i := 0; i < ms.Len(); i++ {
+						if f := p.SSA.MethodValue(ms.At(i)); f != nil {
+							p.AllFns[f] = true
+						}
+					}
+				}
+			}
+		}
+	}
+	for f := range p.AllFns {
+		if pk := p.pkgOfFn(f); pk != nil && p.Pkgs[pk.Pkg.Path()] != nil && len(f.Blocks) > 0 && f.Synthetic == "" {
+			p.Funcs = append(p.Funcs, f)
+		}
+	}
+	sort.Slice(p.Funcs, func(i, j int) bool { return p.Funcs[i].String() < p.Funcs[j].String() })
+	return p
+}
